@@ -57,6 +57,45 @@ pub fn run() {
                 }
                 None => "none".to_string(),
             },
+            // grad <space> <n> <hex colour string>...: the gradient the property describes, built
+            // through the library: stops at i/(k-1), samples at j/(n-1); answers the printed lines
+            ["grad", sp, n, cols @ ..] => {
+                let n: usize = n.parse().unwrap_or(0);
+                let parsed: Option<Vec<Color>> = cols.iter().map(|t| unhex(t).and_then(|b| String::from_utf8(b).ok()).and_then(|s| parse_color(&s))).collect();
+                match parsed {
+                    Some(cs) if cs.len() >= 2 && n >= 2 => {
+                        let r = std::panic::catch_unwind(|| {
+                            let mut sc = pastel::ColorScale::empty();
+                            let k = cs.len();
+                            for (i, c) in cs.iter().enumerate() {
+                                sc.add_stop(c.clone(), pastel::Fraction::from(i as f64 / (k as f64 - 1.0)));
+                            }
+                            let mixf = |a: &Color, b: &Color, f: pastel::Fraction| -> Color {
+                                match *sp {
+                                    "rgb" => a.mix::<pastel::RGBA<f64>>(b, f),
+                                    "hsl" => a.mix::<pastel::HSLA>(b, f),
+                                    "lab" => a.mix::<pastel::Lab>(b, f),
+                                    "lch" => a.mix::<pastel::LCh>(b, f),
+                                    _ => a.mix::<pastel::OkLab>(b, f),
+                                }
+                            };
+                            let mut lines = vec![];
+                            for j in 0..n {
+                                match sc.sample(pastel::Fraction::from(j as f64 / (n as f64 - 1.0)), &mixf) {
+                                    Some(c) => lines.push(hex_str(&c.to_hsl_string(Format::NoSpaces))),
+                                    None => lines.push("-".to_string()),
+                                }
+                            }
+                            lines.join(",")
+                        });
+                        match r {
+                            Ok(l) => format!("ok {}", l),
+                            Err(_) => "panic".to_string(),
+                        }
+                    }
+                    _ => "none".to_string(),
+                }
+            }
             _ => "bad".to_string(),
         };
         writeln!(out, "{}", ans).ok();
